@@ -145,7 +145,7 @@ def m_ptr_aligned(c, *a):
        r'|^(?:std::string::)?String::(as_str|as_bytes|as_mut_str)$'
        r'|^<(?:std::vec::)?Vec<.*> as (?:std::ops::)?(?:Deref|DerefMut|AsRef<.*>|Borrow<.*>|AsMut<.*>)>::\w+$'
        r'|^(?:std::vec::)?Vec::<.*>::(as_slice|as_mut_slice)$'
-       r'|^<(?:bytes::)?BytesMut as (?:std::ops::)?(?:Deref|DerefMut|AsRef<.*>|Borrow<.*>|AsMut<.*>)>::\w+$'
+       r'|^<(?:bytes::)?(?:BytesMut|Bytes) as (?:std::ops::)?(?:Deref|DerefMut|AsRef<.*>|Borrow<.*>|AsMut<.*>)>::\w+$'
        r'|^(?:\w+::)*str::<impl str>::(as_bytes|as_str|trim_matches_noop)$'
        r'|^<str as AsRef<.*>>::as_ref$|^<\[u8\] as AsRef<.*>>::as_ref$'
        r'|^<(?:std::borrow::)?Cow<.*> as (?:std::ops::)?Deref>::deref$'
